@@ -56,7 +56,16 @@ def extra_events(ctx):
                         ctx.note('key %s at t=%d unavailable: %s' % (alg, t, repr(ex)[:80]))
                         continue
                     for form, blob in (('private', bytes(k)), ('public', bytes(k.pubkey))):
-                        k2 = pgpy.PGPKey.from_blob(blob)[0]
+                        try:
+                            k2 = pgpy.PGPKey.from_blob(blob)[0]
+                        except Exception:
+                            # PGPy cannot read its own export back: "identical after export and import" fails; the fingerprints of the key in
+                            # memory are still compared with the exported octets
+                            e = fpr_event('%s t=%d tz=%s %s (export not importable)' % (alg, t, tz, form), blob, k if form == 'private' else k.pubkey)
+                            e['same_as_original'] = False
+                            e['created_octets'] = octets(struct.pack('>I', t))
+                            ev.append(e)
+                            continue
                         e = fpr_event('%s t=%d tz=%s %s' % (alg, t, tz, form), blob, k2)
                         e['same_as_original'] = [str(k.fingerprint)] + [str(s.fingerprint) for s in k.subkeys.values()] == \
                             [str(k2.fingerprint)] + [str(s.fingerprint) for s in k2.subkeys.values()]
